@@ -219,13 +219,14 @@ theorem takeWhile_append_stop (p : Nat → Bool) (l1 : List Nat) (y : Nat) (l2 :
 /-- equal up to rotation -/
 def IsRotation (c d : List Nat) : Prop := ∃ x y, c = x ++ y ∧ d = y ++ x
 
-/-- ★ a simple cycle that some start node reaches is recorded by the traversal, written from the node where
-    a simple path from the start first meets it -/
-theorem cycle_found {n : Nat} {adj : Nat → List Nat} (fuel : Nat) (starts : List Nat)
-    (cycles out : List (List Nat)) (h : cyclesFromStarts adj true fuel starts cycles = some out)
-    {s : Nat} (hs : s ∈ starts) {C : List Nat} (hC : IsSimpleCycle n adj true C)
+/-- a start node that reaches a simple cycle has a simple path onto it and once around it: the reversed path
+    `(b ++ a).reverse ++ y0 :: tw.reverse` extends `[s]`, ends at the node before `y0` on the cycle, and `y0` is a
+    successor of that last node -/
+theorem path_around_cycle {n : Nat} {adj : Nat → List Nat} {s : Nat} {C : List Nat} (hC : IsSimpleCycle n adj true C)
     {c : Nat} (hc : c ∈ C) (hreach : Reach adj s c) :
-    ∃ d ∈ out, IsRotation C d := by
+    ∃ (a b : List Nat) (y0 : Nat) (tw : List Nat), C = a ++ y0 :: b ∧ (y0 :: (b ++ a)).Nodup ∧
+      Extends adj [s] ((b ++ a).reverse ++ y0 :: tw.reverse) ∧
+      y0 ∈ adj (((b ++ a).reverse ++ y0 :: tw.reverse).headD 0) := by
   obtain ⟨tw, y0, hP, hy0, htw⟩ := exists_fpath_first_hit (adj := adj) (fun v => C.contains v) hreach (by simpa using hc)
   have hy0C : y0 ∈ C := by simpa using hy0
   obtain ⟨a, b, hsplit⟩ := List.append_of_mem hy0C
@@ -279,16 +280,24 @@ theorem cycle_found {n : Nat} {adj : Nat → List Nat} (fuel : Nat) (starts : Li
       have h1 : y0 :: (L' ++ [z]) = (y0 :: L') ++ [z] := rfl
       rw [h1, List.getLast?_append]
       simp
-  have hedge : y0 ∈ adj ((F'.reverse ++ [s]).headD 0) := by
-    rw [hrp']
+  have hedge : y0 ∈ adj (((b ++ a).reverse ++ y0 :: tw.reverse).headD 0) := by
     simp only [linkB, hlast, List.head?_cons] at hlink'
     simpa using hlink'
-  have hin : y0 ∈ F'.reverse ++ [s] := by rw [hrp']; simp
+  exact ⟨a, b, y0, tw, hsplit, hnd', hrp' ▸ hext, hedge⟩
+
+/-- ★ a simple cycle that some start node reaches is recorded by the traversal, written from the node where
+    a simple path from the start first meets it -/
+theorem cycle_found {n : Nat} {adj : Nat → List Nat} (fuel : Nat) (starts : List Nat)
+    (cycles out : List (List Nat)) (h : cyclesFromStarts adj true fuel starts cycles = some out)
+    {s : Nat} (hs : s ∈ starts) {C : List Nat} (hC : IsSimpleCycle n adj true C)
+    {c : Nat} (hc : c ∈ C) (hreach : Reach adj s c) :
+    ∃ d ∈ out, IsRotation C d := by
+  obtain ⟨a, b, y0, tw, hsplit, hnd', hext, hedge⟩ := path_around_cycle hC hc hreach
+  have hin : y0 ∈ (b ++ a).reverse ++ y0 :: tw.reverse := by simp
   have hfound := (cyclesFromStarts_explores adj fuel starts cycles out h).2 s hs _ hext y0 hedge hin
   refine ⟨_, hfound, a, y0 :: b, hsplit, ?_⟩
   -- the recorded list is the cycle written from y0
   unfold cycleOf
-  rw [hrp']
   have hstop : ((b ++ a).reverse ++ y0 :: tw.reverse).takeWhile (· != y0) = (b ++ a).reverse := by
     apply takeWhile_append_stop
     · intro v hv
